@@ -52,6 +52,11 @@ class _Fault(Exception):
     pass
 
 
+class _Interrupt(BaseException):
+    """Stands for KeyboardInterrupt / SystemExit arriving while the differentiated function runs
+    (not an Exception subclass: only 'finally' - not 'except Exception' - sees it)."""
+
+
 POINTS = {
     "real": ["3.0", "0.5", "-2.25"],
     "int": ["3", "7"],
@@ -62,7 +67,7 @@ POINTS = {
 SCALAR_LOSS = ["{t(x)^2}", "{t(x)*t(x)}", "{(t(x)*3)+c0}", "{t(x)^3}"]
 VEC_LOSS = ["{+/t(x)^2}", "{+/t(x)*t(x)}", "{(+/t(x))*c0}", "{+/t(x)*c1}", "{keep::x;+/t(x)^2}"]
 MAT_LOSS = ["{+/+/t(x)^2}", "{+/+/t(x)*t(x)}"]
-VEC_FN = ["{t(x)*t(x)}", "{t(x)*c0}", "{t(x)^2}"]
+VEC_FN = ["{t(x)*t(x)}", "{t(x)*c0}", "{t(x)^2}", "{t(x);c1}", "{:[(t(x)@0)>0;c1;other]}"]   # the last two RETURN a global array object itself
 
 
 def _desc(v):
@@ -137,6 +142,9 @@ def scenario(ch, cfg):
             fcall = "loss()"
         else:
             body = ",".join(f"(t({n})*{i + 2})" for i, n in enumerate(names))
+            if ch.draw(4, "returns_param") == 0:
+                body = f"t({names[0]})"        # the function's value IS the global parameter object (t is the identity)
+                bump("probe_function_returns_global_object")
             setup.append(f"vg::{{{body}}}")
             src = f"[{' '.join(listed)}]∂vg"
             fcall = "vg()"
@@ -179,6 +187,8 @@ def scenario(ch, cfg):
                 raise KlongException("scripted failure of the differentiated function")
             if ctl["mode"] == "runtime":
                 raise RuntimeError("scripted failure of the differentiated function")
+            if ctl["mode"] == "interrupt":
+                raise _Interrupt("scripted interrupt while the differentiated function runs")
             # non-scalar: the function's value becomes a vector
             import numpy as np
             try:
@@ -254,7 +264,7 @@ def scenario(ch, cfg):
         # the form does not apply to this parameter kind on this backend (e.g. integer point): still must be pure
         bump("probe_reference_raised")
     # ---- enumerate the failing tick
-    modes = ["klong", "runtime", "nonscalar"]
+    modes = ["klong", "runtime", "nonscalar", "interrupt"]
     for k in range(1, n_ticks + 1):
         for mode in modes:
             before = _snapshot(klong)
@@ -280,6 +290,20 @@ def scenario(ch, cfg):
                 break
         if violations:
             break
+    # ---- multi-step history: the user moves the parameter (a gradient step) and differentiates again
+    if not violations:
+        bump("probe_reassign_then_repeat")
+        for name, pt in point_desc.items():
+            others = [p for p in POINTS.get({"[": "vec"}.get(pt[0], "real"), []) if p != pt]
+            newpt = (others[0] if others else pt)
+            if pt.startswith("[[") or ("." not in pt):
+                newpt = pt          # keep matrices / integer points as they are (kind must stay the same)
+            klong(f"{name}::{newpt}")
+        for rep in range(2):
+            before = _snapshot(klong)
+            r = run(src)
+            evaluations += 1
+            compare(before, _snapshot(klong), f"{src} evaluated again after the parameter(s) were reassigned (repeat {rep + 1}) -> {str(r)[:60]}")
     # ---- statically unknown name
     if not violations:
         bump("probe_unknown_name")
